@@ -422,8 +422,8 @@ Proof.
       * subst p. rewrite Nb. lra.
       * rewrite (Ob p n). specialize (Poth p Hp n). lra.
     + rewrite Sb, Pmax, Sa, VA, SA. ring.
-  - (* m == 0: nothing is moved, the index of the exact zero is dropped *)
-    cbn [bind] in H.
+  - (* m == 0: nothing is moved, the index of the exact zero is dropped (and its entry of the differences list) *)
+    destruct (zipfilter_res _ ind df2) as [dfz|]; cbn [bind] in H; [|discriminate].
     destruct (filter_res _ ind) as [ind2'|] eqn:F2 in H; cbn [bind] in H; [|discriminate].
     destruct (getmany pp1 ind2') as [ip2'|] eqn:GM; cbn [bind] in H; [|discriminate].
     inversion H; subst pp2 ind2 ip3 df3 ex. clear H.
